@@ -346,7 +346,7 @@ Proof.
       pose proof (get_command_off _ Hf2) as G. destruct (get_command' false _) as [c e]. cbn [fst snd] in *.
       destruct c; cbn [fst snd]; (split; [F1; assumption|]); [intros name arg E; injection E as _ <-; exact Hsecond|discriminate]. }
   destruct first as [|x first'].
-  - destruct second as [|y second']; [|split; [F1; exact I|discriminate]].
+  - destruct second as [|y second']; [|exact (IH _ Hsecond)].
     apply Hmain; [reflexivity|]. F1. apply error_line_clean, line_clean_txt. reflexivity.
   - apply Hmain; [exact Hfirst|constructor].
 Qed.
